@@ -217,6 +217,14 @@ func wBoundary(w *ref.Poly) {
 
 // ------------------------------------------------------------ KEM differential
 
+// scribble overwrites a buffer that was passed to the library and is the
+// caller's again.
+func scribble(b []byte) {
+	for i := range b {
+		b[i] ^= 0xA5
+	}
+}
+
 func kviol(im *kemImpl, class, sub string, kv ...any) {
 	d := lib.D(kv...)
 	d["scheme"] = im.name
@@ -262,10 +270,14 @@ func kemCase(im *kemImpl, k int) {
 	var pk kemPub
 	var sk kemPriv
 	lib.Case([]byte(im.name), []byte("keygen"), seed)
-	if pn := lib.Try("NewKeyFromSeed:"+im.name, seed, func() { pk, sk = im.newKey(seed) }); pn != nil {
+	// the seed buffer is the caller's: it is overwritten as soon as the call
+	// returns (a caller wiping its seed); the keys must not change with it
+	seedIn := lib.Clone(seed)
+	if pn := lib.Try("NewKeyFromSeed:"+im.name, seed, func() { pk, sk = im.newKey(seedIn) }); pn != nil {
 		kviol(im, "panic", "keygen", "seed", seed, "panic", pn.Value)
 		return
 	}
+	scribble(seedIn)
 	gotEk := make([]byte, p.EkSize)
 	gotDk := make([]byte, p.DkSize)
 	pk.Pack(gotEk)
@@ -281,15 +293,20 @@ func kemCase(im *kemImpl, k int) {
 		return // everything below would just repeat the same root cause
 	}
 	// scheme API
-	spk, ssk := im.sch.DeriveKeyPair(seed)
+	seedIn = lib.Clone(seed)
+	spk, ssk := im.sch.DeriveKeyPair(seedIn)
+	scribble(seedIn)
 	b1, _ := spk.MarshalBinary()
 	b2, _ := ssk.MarshalBinary()
 	if !lib.Eq(b1, wantEk) || !lib.Eq(b2, wantDk) {
 		kviol(im, "keygen-mismatch", "scheme-api", "seed", seed)
 	}
 	// keys parsed from the reference's bytes
-	upk, err1 := im.sch.UnmarshalBinaryPublicKey(wantEk)
-	usk, err2 := im.sch.UnmarshalBinaryPrivateKey(wantDk)
+	ekIn, dkIn := lib.Clone(wantEk), lib.Clone(wantDk)
+	upk, err1 := im.sch.UnmarshalBinaryPublicKey(ekIn)
+	usk, err2 := im.sch.UnmarshalBinaryPrivateKey(dkIn)
+	scribble(ekIn)
+	scribble(dkIn)
 	if err1 != nil || err2 != nil {
 		kviol(im, "wellformed-key-refused", "", "seed", seed, "err_pub", err1, "err_priv", err2)
 		return
@@ -299,8 +316,11 @@ func kemCase(im *kemImpl, k int) {
 	if im.ml && (!lib.Eq(b1, wantEk) || !lib.Eq(b2, wantDk)) {
 		kviol(im, "reencode-differs", "", "seed", seed)
 	}
-	dpk, err1 := im.unpackPub(wantEk)
-	dsk, err2 := im.unpackPriv(wantDk)
+	ekIn, dkIn = lib.Clone(wantEk), lib.Clone(wantDk)
+	dpk, err1 := im.unpackPub(ekIn)
+	dsk, err2 := im.unpackPriv(dkIn)
+	scribble(ekIn)
+	scribble(dkIn)
 	if err1 != nil || err2 != nil {
 		kviol(im, "wellformed-key-refused", "direct-api", "seed", seed, "err_pub", err1, "err_priv", err2)
 		return
